@@ -227,6 +227,21 @@ class Run:
         return self
 
 
+def count_features(ctx, run):
+    """evidence: how often the less common situations of the scheduler harness occurred in this run"""
+    case = run.case
+    ctx.count("echoed_arrivals_inside_next_hop_put", run.echoed)
+    ctx.count("late_arrivals_inside_an_instant", sum(1 for a in case["arrivals"] if a.get("late")))
+    if case.get("out_store"):
+        ctx.count("store_as_next_hop_cases")
+    if case["cfg"]["cmap"] == "mixed":
+        ctx.count("mixed_type_class_id_cases")
+    if case["cfg"]["kind"] == "WFQ" and min(case["cfg"]["table"].values()) < 1e-3:
+        ctx.count("tiny_weight_cases")
+    if case.get("twin"):
+        ctx.count("twin_scheduler_cases")
+
+
 def gen_case(rng, kind, flavour=None, n=None, static=False, cmap=None, nflows=None, sizes=None):
     flavour = flavour or ("exact" if rng.random() < 0.7 else "float")
     cfg = gen_config(rng, kind, flavour, nflows=nflows, cmap=cmap)
